@@ -6,6 +6,7 @@ import (
 	"math/big"
 	"reflect"
 	"runtime"
+	"strings"
 	"testing"
 
 	"com.tuntun.rangers/node/src/common"
@@ -676,6 +677,37 @@ func mutate(t *rapid.T, enc []byte, tr *ref.Item) ([]byte, string) {
 		}
 		return out, "tag_swap"
 	case 7: // huge declared size
+		if rapid.IntRange(0, 3).Draw(t, "cooperating") == 0 {
+			// two oversized headers that agree with each other: an outer list header declaring more than the input
+			// holds, some small elements, and an inner string (or list) header declaring a size that fits the bogus list
+			outerLL := rapid.IntRange(3, 8).Draw(t, "outerLL")
+			innerLL := rapid.IntRange(3, outerLL).Draw(t, "innerLL")
+			full := ^uint64(0) >> uint(64-8*innerLL)
+			inner := rapid.SampledFrom([]uint64{1 << 20, 64 << 20, full / 2, full - 1, full}).Draw(t, "innerSize")
+			if inner > full {
+				inner = full
+			}
+			nSmall := rapid.SampledFrom([]int{0, 1, 1, 1, 2, 3, 4, 4, 5, 5, 6, 9}).Draw(t, "nSmall") // the node's types have byte-string / big-integer fields at positions 1, 4 and 5
+			var body []byte
+			for i := 0; i < nSmall; i++ {
+				body = append(body, byte(rapid.IntRange(1, 0x7f).Draw(t, "small")))
+			}
+			ib := rapid.SampledFrom([]byte{0xb7, 0xf7}).Draw(t, "innerBase")
+			body = append(body, ib+byte(innerLL))
+			for i := innerLL - 1; i >= 0; i-- {
+				body = append(body, byte(inner>>(8*uint(i))))
+			}
+			outerFull := ^uint64(0) >> uint(64-8*outerLL)
+			outer := inner + uint64(len(body)) + uint64(rapid.IntRange(0, 4).Draw(t, "outerSlack"))
+			if outer < inner || outer > outerFull {
+				outer = outerFull
+			}
+			out := []byte{0xf7 + byte(outerLL)}
+			for i := outerLL - 1; i >= 0; i-- {
+				out = append(out, byte(outer>>(8*uint(i))))
+			}
+			return append(out, body...), "huge_size_two_cooperating_headers"
+		}
 		ll := rapid.IntRange(1, 8).Draw(t, "ll")
 		base := rapid.SampledFrom([]byte{0xb7, 0xf7}).Draw(t, "base")
 		h := []byte{base + byte(ll)}
@@ -777,7 +809,7 @@ func checkBytes(t fataler, b []byte, label string) {
 	for _, tg := range targets {
 		v := tg.mk()
 		var ms0, ms1 runtime.MemStats
-		measure := label == "huge_size" || label == "huge_size_nested"
+		measure := strings.HasPrefix(label, "huge_size")
 		if measure {
 			runtime.ReadMemStats(&ms0)
 		}
